@@ -52,7 +52,11 @@ br_ssl_key_export(br_ssl_engine_context *cc,
 	unsigned char tmp[2];
 	int prf_id;
 
-	if (cc->application_data != 1) {
+	/*
+	 * A failed engine keeps its 'application data' mark; it must be
+	 * tested as well.
+	 */
+	if (cc->application_data != 1 || br_ssl_engine_closed(cc)) {
 		return 0;
 	}
 	chunks[0].data = cc->client_random;
